@@ -98,4 +98,58 @@ Proof.
   - split; [lia | exact B].
 Qed.
 
+(* ---- setext headings: the underline is a non-blank line, and it is the last line of the map ---- *)
+
+Lemma para_scan_underline term (T : term_fr term) chain (CN : chain <> []) : forall fuel st nl el cu r ml st',
+  para_scan fuel term chain st nl el cu = Ok (r, Some ml, st') -> r < el /\ is_empty st r = Ok false.
+Proof.
+  induction fuel as [|f IH]; intros st nl el cu r ml st' H; [discriminate H|].
+  cbn [para_scan] in H.
+  destruct (negb (nl <? el)) eqn:LT; [discriminate H|].
+  destruct (is_empty st nl) as [e|?|] eqn:IE; cbn [bind] in H; try discriminate H.
+  destruct e; [discriminate H|].
+  assert (STEP : forall stx, fr st stx -> para_scan f term chain stx (nl + 1) el cu = Ok (r, Some ml, st') ->
+                 r < el /\ is_empty st r = Ok false).
+  { intros stx F HX. destruct (IH _ _ _ _ _ _ _ HX) as [A B]. split; [exact A|]. rewrite <- (is_empty_fr st stx r F). exact B. }
+  destruct (tb (b_sCount st) nl) as [sc|?|]; cbn [bind] in H; try discriminate H.
+  destruct (3 <? sc - b_blkIndent st); [exact (STEP st (fr_refl st) H)|].
+  match type of H with bind ?m _ = _ => destruct m as [ul|?|] end; cbn [bind] in H; try discriminate H.
+  destruct ul as [ml'|].
+  { injection H as <- _ _. split; [lia | exact IE]. }
+  destruct (sc <? 0); [exact (STEP st (fr_refl st) H)|].
+  destruct (term chain st nl el) as [[t stx]|?|] eqn:TE; cbn [bind] in H; try discriminate H.
+  pose proof (T _ _ _ _ _ _ CN TE) as F.
+  destruct t; [discriminate H | exact (STEP stx F H)].
+Qed.
+
+(* the setext heading: map [sl, nl + 1) with nl the underline; every line of it non-blank, in particular the last one;
+   the inline token's map [sl, nl) stops before the underline *)
+Theorem setext_heading_ends_nonblank term (T : term_fr term) st sl el st' :
+  r_lheading cfg term st sl el false = Ok (true, st') -> is_empty st sl = Ok false ->
+  exists nl op inl cl,
+    b_tokens st' = b_tokens st ++ [op; inl; cl] /\ tmap op = Some (sl, nl + 1) /\ tmap inl = Some (sl, nl) /\ b_line st' = nl + 1
+    /\ sl < nl /\ nl < el /\ (forall l, sl <= l < nl + 1 -> is_empty st l = Ok false).
+Proof.
+  unfold r_lheading. intros H E0.
+  match type of H with bind ?m _ = _ => destruct m as [cb|?|] end; cbn [bind] in H; try discriminate H.
+  destruct cb; [discriminate H|].
+  match type of H with bind ?m _ = _ => destruct m as [[[nl u] st1]|?|] eqn:PS end; cbn [bind] in H; try discriminate H.
+  destruct u as [[marker level]|]; [|discriminate H].
+  destruct (para_scan_nonblank term T nm_paragraph ltac:(discriminate) _ _ _ _ _ _ _ _ PS) as [LE NB].
+  destruct (para_scan_underline term T nm_paragraph ltac:(discriminate) _ _ _ _ _ _ _ _ PS) as [LT UL].
+  destruct (get_lines st1 sl nl (b_blkIndent st1) false) as [raw|?|]; cbn [bind] in H; try discriminate H.
+  injection H as <-.
+  eexists nl, _, _, _. split; [|split; [|split; [|split; [|split; [|split]]]]].
+  - unfold st_parent, st_line, push_inline, bpush. cbn [b_tokens set]. rewrite <- !app_assoc. cbn [app].
+    apply (para_scan_fr term T nm_paragraph ltac:(discriminate)) in PS. rewrite PS. cbn. reflexivity.
+  - reflexivity.
+  - reflexivity.
+  - reflexivity.
+  - lia.
+  - exact LT.
+  - intros l Hl. destruct (Z.eq_dec l sl) as [->|NE]; [exact E0|].
+    change (is_empty st l) with (is_empty (st_parent st nm_paragraph) l).
+    destruct (Z.eq_dec l nl) as [->|NE2]; [exact UL | apply NB; lia].
+Qed.
+
 End Ends.
